@@ -34,7 +34,7 @@ class Instr:
         def hopper(s, probs):
             iz0 = s.spawn_stack.izeta; st = s.state
             out = inst.o_hopper(s, probs)
-            if out and s.spawn_stack.do_spawn():
+            if out and s.spawn_stack.sample_stack and s.spawn_stack.izeta > iz0:       # a stack threshold was crossed (whatever do_spawn() says afterwards)
                 ns = s.spawn_stack.spawn_size()
                 ratios = [float(out[i * ns]["weight"]) for i in range(len(out) // ns)]
                 s._v["events"].append(dict(k=s.spawn_stack.izeta - iz0, ratios=ratios, ns=ns, kids=[], ntargets=len(out), state=st,
@@ -223,6 +223,10 @@ def run(tier, seed):
                 if not was_inside or (-bound < xs[-1] < bound):
                     bad.append(dict(failed="a trajectory ends by the box rule only after having been inside the box and having left it (trajectory %d ended at x=%r after %d snapshots, ever inside: %r)"
                                     % (t._v["id"], xs[-1], len(xs), was_inside), case=info)); break
+            # a trajectory that has crossed every threshold of its stack has handed all of its weight to its children
+            for t in inst.trajs:
+                if t.spawn_stack.sample_stack and t.spawn_stack.izeta == len(t.spawn_stack.sample_stack) and float(t.weight) != 0.0:
+                    bad.append(dict(failed="the parent keeps the remaining marginal weight, which is zero once every threshold of its stack has been crossed (trajectory %d keeps weight %r)" % (t._v["id"], float(t.weight)), case=info)); break
             # the weights the batch reports (one trace per trajectory) are the trajectories' weights
             stale = [(t._v["id"], float(t.weight), float(t.tracer.weight)) for t in inst.trajs if float(t.tracer.weight) != float(t.weight)]
             tw = sum(float(tt.weight) for tt in r.traces); base = sum(float(rt._v["base0"]) for rt in roots)
